@@ -1,0 +1,11 @@
+//go:build !verif
+
+package blockchain
+
+import "time"
+
+// No-op twins of the conformance-harness hooks of push_verif.go (build tag "verif").
+
+func verifPushSleep(d time.Duration) time.Duration { return d }
+
+func verifPushGate(string, *pushNotify) {}
